@@ -74,8 +74,8 @@ pub fn orders(full: bool) -> Vec<Ord_> {
     } else {
         vec![0, 1, M]
     };
-    let prices: Vec<u64> = if full { vec![0, 1, BIG, M] } else { vec![0, M] };
-    let tss: Vec<u64> = if full { vec![0, 1, M] } else { vec![0, M] };
+    let prices: Vec<u64> = if full { vec![0, 1, BIG, M - 1, M] } else { vec![0, M] };
+    let tss: Vec<u64> = if full { vec![0, BIG, M - 1, M] } else { vec![0, M] };
     let idv = if full { ids() } else { few_ids() };
     let mut out = vec![];
     for id in &idv {
@@ -183,7 +183,7 @@ pub fn orders(full: bool) -> Vec<Ord_> {
 
 pub fn updates() -> Vec<OrderUpdate> {
     let mut out = vec![];
-    let vals = [0, 1, BIG, M];
+    let vals = [0, 1, BIG, M - 1, M];
     for order_id in ids() {
         out.push(OrderUpdate::Cancel { order_id });
         for a in vals {
@@ -222,7 +222,7 @@ pub fn transactions(full: bool) -> Vec<Transaction> {
         Uuid::from_u128(u128::MAX),
         Uuid::from_u128(0x6ba7b810_9dad_11d1_80b4_00c04fd430c8),
     ];
-    let vals: Vec<u64> = if full { vec![0, 1, BIG, M] } else { vec![0, M] };
+    let vals: Vec<u64> = if full { vec![0, 1, BIG, M - 1, M] } else { vec![0, M] };
     let idv = if full { ids() } else { few_ids() };
     for transaction_id in txids {
         for taker_order_id in &idv {
@@ -284,7 +284,7 @@ pub fn match_results() -> Vec<MatchResult> {
     fills.push(ids());
     let mut out = vec![];
     for order_id in ids() {
-        for remaining_quantity in [0, 1, BIG, M] {
+        for remaining_quantity in [0, 1, BIG, M - 1, M] {
             for is_complete in [true, false] {
                 for transactions in &lists {
                     for filled_order_ids in &fills {
@@ -331,6 +331,34 @@ pub fn order_lists() -> Vec<Vec<Ord_>> {
         let b = with_id(&picks[(i + 5) % picks.len()], 4);
         let c = with_id(&picks[(i + 11) % picks.len()], 6);
         out.push(vec![a, b, c]);
+    }
+    // quantities, prices and timestamps that are not exactly representable as f64
+    for (q, h) in [(BIG, 0u64), (M - 1, 0), (BIG, BIG + 2), (3, M - 4)] {
+        for price in [BIG, M - 1] {
+            let a = OrderType::IcebergOrder {
+                id: idv[1],
+                price,
+                visible_quantity: q,
+                hidden_quantity: h,
+                side: Side::Sell,
+                timestamp: BIG + 4,
+                time_in_force: TimeInForce::Gtd(M - 1),
+                extra_fields: (),
+            };
+            let b = OrderType::Standard {
+                id: idv[6],
+                price,
+                quantity: 1,
+                side: Side::Buy,
+                timestamp: M - 1,
+                time_in_force: TimeInForce::Day,
+                extra_fields: (),
+            };
+            out.push(vec![a]);
+            if q as u128 + h as u128 + 1 <= M as u128 {
+                out.push(vec![a, b]);
+            }
+        }
     }
     // harness templates too (small quantities, ties in timestamps)
     out.push(vec![
@@ -482,10 +510,10 @@ fn queue_content(q: &OrderQueue) -> Vec<Rec> {
 
 fn stats_values() -> Vec<PriceLevelStatistics> {
     let mut out = vec![];
-    let vals = [0u64, 1, BIG, M];
+    let vals = [0u64, 1, BIG, M - 1, M];
     for a in vals {
         for b in vals {
-            for c in [0u64, M] {
+            for c in [0u64, BIG, M] {
                 let text = format!(
                     "PriceLevelStatistics:orders_added={a};orders_removed={b};orders_executed={c};quantity_executed={b};value_executed={a};last_execution_time={c};first_arrival_time={a};sum_waiting_time={b}"
                 );
@@ -529,7 +557,7 @@ pub fn run_c16(tier: &str) -> i32 {
     ty!("Side", SIDES.to_vec(), |a: &Side, b: &Side| a == b, dbg::<Side>);
     ty!("TimeInForce", tifs(), |a: &TimeInForce, b: &TimeInForce| a == b, dbg::<TimeInForce>);
     ty!("PegReferenceType", pegs(), |a: &PegReferenceType, b: &PegReferenceType| a == b, dbg::<PegReferenceType>);
-    ty!("OrderType", orders(full), |a: &Ord_, b: &Ord_| a == b, dbg::<Ord_>);
+    ty!("OrderType", orders(full), |a: &Ord_, b: &Ord_| rec(a) == rec(b) && a == b, dbg::<Ord_>);
     ty!("OrderUpdate", updates(), |a: &OrderUpdate, b: &OrderUpdate| dbg(a) == dbg(b), dbg::<OrderUpdate>);
     ty!("Transaction", transactions(full), |a: &Transaction, b: &Transaction| a == b, dbg::<Transaction>);
     ty!("TransactionList", transaction_lists(), |a: &TransactionList, b: &TransactionList| a == b, dbg::<TransactionList>);
@@ -540,7 +568,7 @@ pub fn run_c16(tier: &str) -> i32 {
     let mut queues = vec![];
     let mut snaps = vec![];
     for l in &lists {
-        for price in [0, LEVEL_PRICE, M] {
+        for price in [0, LEVEL_PRICE, BIG, M - 1, M] {
             if let Some(level) = level_for(l, price) {
                 snaps.push(level.snapshot());
                 levels.push(level);
@@ -559,9 +587,9 @@ pub fn run_c16(tier: &str) -> i32 {
     );
     // snapshot summaries with arbitrary aggregate values
     let mut synth = vec![];
-    for a in [0, 1, BIG, M] {
-        for b in [0, 1, BIG, M] {
-            for c in [0usize, 1, usize::MAX] {
+    for a in [0, 1, BIG, M - 1, M] {
+        for b in [0, 1, BIG, M - 1, M] {
+            for c in [0usize, 1, (BIG + 2) as usize, usize::MAX] {
                 let mut s = PriceLevelSnapshot::new(a);
                 s.visible_quantity = b;
                 s.hidden_quantity = a;
@@ -602,7 +630,7 @@ pub fn run_c17(tier: &str) -> i32 {
     ty!("Side", SIDES.to_vec(), |a: &Side, b: &Side| a == b, dbg::<Side>);
     ty!("TimeInForce", tifs(), |a: &TimeInForce, b: &TimeInForce| a == b, dbg::<TimeInForce>);
     ty!("PegReferenceType", pegs(), |a: &PegReferenceType, b: &PegReferenceType| a == b, dbg::<PegReferenceType>);
-    ty!("OrderType", orders(full), |a: &Ord_, b: &Ord_| a == b, dbg::<Ord_>);
+    ty!("OrderType", orders(full), |a: &Ord_, b: &Ord_| rec(a) == rec(b) && a == b, dbg::<Ord_>);
     ty!("OrderUpdate", updates(), |a: &OrderUpdate, b: &OrderUpdate| dbg(a) == dbg(b), dbg::<OrderUpdate>);
     ty!("Transaction", transactions(full), |a: &Transaction, b: &Transaction| a == b, dbg::<Transaction>);
     ty!("TransactionList", transaction_lists(), |a: &TransactionList, b: &TransactionList| a == b, dbg::<TransactionList>);
@@ -613,7 +641,7 @@ pub fn run_c17(tier: &str) -> i32 {
     let mut snaps = vec![];
     let mut packages = vec![];
     for l in &lists {
-        for price in [0, LEVEL_PRICE, M] {
+        for price in [0, LEVEL_PRICE, BIG, M - 1, M] {
             if let Some(level) = level_for(l, price) {
                 snaps.push(level.snapshot());
                 if let Ok(p) = level.snapshot_package() {
@@ -638,6 +666,19 @@ pub fn run_c17(tier: &str) -> i32 {
     ty!("PriceLevel", levels, |a: &PriceLevel, b: &PriceLevel| level_content(a) == level_content(b), |l: &PriceLevel| l.to_string());
     ty!("OrderQueue", queues, |a: &OrderQueue, b: &OrderQueue| queue_content(a) == queue_content(b), |q: &OrderQueue| q.to_string());
     ty!("PriceLevelSnapshot", snaps, |a: &PriceLevelSnapshot, b: &PriceLevelSnapshot| snap_key(a) == snap_key(b), |s: &PriceLevelSnapshot| format!("{s:?}"));
+    let mut synth = vec![];
+    for a in [0, 1, BIG, M - 1, M] {
+        for b in [0, 1, BIG, M - 1, M] {
+            for c in [0usize, 1, (BIG + 2) as usize, usize::MAX - 1, usize::MAX] {
+                let mut s = PriceLevelSnapshot::new(a);
+                s.visible_quantity = b;
+                s.hidden_quantity = a ^ 1;
+                s.order_count = c;
+                synth.push(s);
+            }
+        }
+    }
+    ty!("PriceLevelSnapshot(synthetic aggregates)", synth, |a: &PriceLevelSnapshot, b: &PriceLevelSnapshot| snap_key(a) == snap_key(b), |s: &PriceLevelSnapshot| format!("{s:?}"));
     // packages: equal and still valid after the trip, through serde and through to_json / from_json
     {
         let before = t.evaluations;
